@@ -115,3 +115,79 @@ Theorem C07_iter_written : forall k v c,
                            urest u' = r /\ uidx u' = length (flat ss).
 Proof. exact iter_skip_written. Qed.
 Print Assumptions C07_iter_written.
+
+(* ---- the FIELD-LOOP form: generated decoders and ApplicationException::decode do not skip a struct as
+   a whole, they read the field headers themselves and call the protocol's skipper on the fields they
+   do not know (the state between a compact bool field header and its skip -- the header's value is
+   parked in the reader -- is where seeded C07e / C12e went wrong) ---- *)
+From PV Require Import Thrift.AppMsg Proofs.FieldLoopP.
+
+(* the loop that skips EVERY field, on EVERY input the struct reader accepts (pilota's encodings and
+   any other, arbitrary trailing data, any reader context): it stops in exactly the reader's state --
+   same position, same field-id stack and last id, same pending-bool state -- and reports exactly
+   the bytes consumed; a field nested deeper than MAXIMUM_SKIP_DEPTH is refused *)
+Theorem C07_field_loop_skip : forall p f s v s',
+  read_val p (S f) TStruct s = Ok (v, s') ->
+  ((vdepth v <= S skip_depth)%nat -> field_loop_skip p f s = Ok (consumed s s', s')) /\
+  ((S skip_depth < vdepth v)%nat -> field_loop_skip p f s = Err EDepthLimit).
+Proof. exact field_loop_skip_sim. Qed.
+Print Assumptions C07_field_loop_skip.
+
+Theorem C07_field_loop_skip_async : forall p f s v s',
+  aread_val p (S f) TStruct s = Ok (v, s') ->
+  ((vdepth v <= S skip_depth)%nat -> afield_loop_skip p f s = Ok (tt, s')) /\
+  ((S skip_depth < vdepth v)%nat -> afield_loop_skip p f s = Err EDepthLimit).
+Proof. exact afield_loop_skip_sim. Qed.
+Print Assumptions C07_field_loop_skip_async.
+
+(* composed with C01: any well-typed struct written by pilota (any fields, bools included), followed
+   by arbitrary bytes [r]: the loop consumes exactly the struct, reports its length, and hands the
+   reader context back as found *)
+Theorem C07_field_loop_skip_written : forall p k fs c,
+  wt (VStruct fs) = true -> w_pend c = None ->
+  exists ss, write_val p k (VStruct fs) c = Ok (ss, c) /\
+    forall fuel r rcx, (vsize (VStruct fs) <= S fuel)%nat -> idle rcx ->
+      ((fmax fs <= skip_depth)%nat ->
+         field_loop_skip p fuel (mkS (flat ss ++ r) rcx) = Ok (Z.of_nat (length (flat ss)), mkS r rcx)) /\
+      ((skip_depth < fmax fs)%nat ->
+         field_loop_skip p fuel (mkS (flat ss ++ r) rcx) = Err EDepthLimit).
+Proof. exact field_loop_skip_written. Qed.
+Print Assumptions C07_field_loop_skip_written.
+
+Theorem C07_field_loop_skip_written_async : forall p k fs c,
+  wt (VStruct fs) = true -> w_pend c = None ->
+  exists ss, write_val p k (VStruct fs) c = Ok (ss, c) /\
+    forall fuel r, (vsize (VStruct fs) <= S fuel)%nat -> Z.of_nat (length (flat ss ++ r)) < 2 ^ 63 ->
+      ((fmax fs <= skip_depth)%nat -> afield_loop_skip p fuel (mkS (flat ss ++ r) r0) = Ok (tt, mkS r r0)) /\
+      ((skip_depth < fmax fs)%nat -> afield_loop_skip p fuel (mkS (flat ss ++ r) r0) = Err EDepthLimit).
+Proof. exact afield_loop_skip_written. Qed.
+Print Assumptions C07_field_loop_skip_written_async.
+
+(* a decoder that knows only SOME of the fields ([skipid] selects the unknown ones -- any subset, any
+   order): known fields come out as written, unknown ones are passed over ([tol_rel]), the reader
+   stops exactly behind the struct with its context as found; an unknown field nested deeper than the
+   budget is refused *)
+Theorem C07_tolerant_written : forall p skipid k fs c,
+  wt (VStruct fs) = true -> w_pend c = None ->
+  exists ss, write_val p k (VStruct fs) c = Ok (ss, c) /\
+    forall fuel r rcx, (vsize (VStruct fs) <= fuel)%nat -> idle rcx ->
+      ((skmax skipid fs <= skip_depth)%nat ->
+         exists fs', tread_struct p skipid fuel (mkS (flat ss ++ r) rcx) = Ok (VStruct fs', mkS r rcx) /\
+                     Forall2 (tol_rel skipid) (canonf p fs) fs') /\
+      ((skip_depth < skmax skipid fs)%nat ->
+         tread_struct p skipid fuel (mkS (flat ss ++ r) rcx) = Err EDepthLimit).
+Proof. exact tolerant_written. Qed.
+Print Assumptions C07_tolerant_written.
+
+(* ApplicationException::decode (the model of Thrift/AppMsg.v) reads ANY struct encoding written by
+   pilota whose fields 1 (string) and 2 (i32), where present, are well typed and whose other fields
+   are arbitrary well-typed values within the skip budget -- any ids, any order, any number -- to
+   (message, kind), last occurrence winning and the defaults standing in for absent ones; it
+   consumes exactly the struct and hands the reader context back as found.  Every protocol. *)
+Theorem C07_app_exception_tolerant : forall p k fs c,
+  wt (VStruct fs) = true -> w_pend c = None -> Forall app_field_ok fs ->
+  exists ss, write_val p k (VStruct fs) c = Ok (ss, c) /\
+    forall fuel r rcx, (vsize (VStruct fs) <= fuel)%nat -> idle rcx ->
+      app_decode p fuel (mkS (flat ss ++ r) rcx) = Ok (app_pick fs app_default_msg 0, mkS r rcx).
+Proof. exact app_exception_tolerant. Qed.
+Print Assumptions C07_app_exception_tolerant.
